@@ -1,10 +1,10 @@
 CONSTANTS
   Bugs = {}
   MaxC = 3
-  MaxOps = 9
-  Fams = {"unix", "tcp"}
+  MaxOps = 8
+  Fams = {"unix"}
   MaxData = 2
-  MaxArms = 2
+  MaxArms = 1
   Rearm = TRUE
 SPECIFICATION Spec
 CONSTRAINT Bound
